@@ -261,11 +261,37 @@ def check(ctx, run):
         run.ob("R2", "verbose-output form %s" % nm, parse.site, ok, witness=[render(parse, c) for c in cs])
     tv = prog.fn(CLS + "::addTestToRunBasedOnVerboseOutput")
     run.analysed(tv)
-    for p in enumerate_paths(tv):
-        names = [render(tv, c) for c in path_calls(prog, tv, p)]
-        st = [x for x in names if x.endswith("->strictMatching()")]
-        asg = sorted(l for l, r, n in assignments(tv, p) if l.endswith("Filters_"))
-        run.ob("R2", "TEST(g, n) form adds one strict group and one strict name filter", tv.site, len(set(st)) == 2 and asg == ["groupFilters_", "nameFilters_"], witness={"strict": st, "pushed": asg})
+    def from_till(o, c1, c2):
+        if not (isinstance(o, tuple) and isinstance(c1, int) and isinstance(c2, int)):
+            return None
+        t = o[1]
+        b_ = t.find(chr(c1 & 0xff))
+        if b_ < 0:
+            return ("str", "")
+        e_ = t.find(chr(c2 & 0xff), b_)
+        return ("str", t[b_:] if e_ < 0 else t[b_:e_])
+    for text, wg, wn in (("grp, name)", "grp", "name"), ("MyGroup, test_one)", "MyGroup", "test_one")):
+        log = []
+        hooks = string_hooks({CLS + "::getParameterField": lambda *a_, text=text: ("str", text), "SimpleString::subStringFromTill": from_till,
+                              "SimpleString::subString": lambda o, b_, n_=None: ("str", o[1][b_:] if n_ is None else o[1][b_:b_ + n_]) if isinstance(o, tuple) and isinstance(b_, int) else None,
+                              "TestFilter::strictMatching": lambda *a_: (log.append(("strict", a_[0])), 0)[1], "TestFilter::invertMatching": lambda *a_: (log.append(("invert", a_[0])), 0)[1],
+                              "TestFilter::add": lambda *a_: (log.append(("add", a_[0], a_[1])), a_[0])[1]})
+        ev = Evaluator(prog, tv, env=dict({"groupFilters_": 500, "nameFilters_": 600}, **{q["name"]: 3 for q in tv.params}), calls=hooks)
+        ev.pass_object = True
+        why = ""
+        try:
+            ev.run_blocks(tv.entry, max_steps=600)
+            news = {(t[1][1][1] if len(t[1]) > 1 and isinstance(t[1][1], tuple) else None): t[1][0] for t in ev.trace if t[0].startswith("new TestFilter")}
+            if set(news) != {wg, wn}:
+                why = "creates filters %s; expected group %r and name %r" % (sorted(map(str, news)), wg, wn)
+            elif sorted(x for x in log if x[0] != "add") != sorted([("strict", news[wg]), ("strict", news[wn])]):
+                why = "modifiers applied: %s; expected strict matching once on each filter" % ([x for x in log if x[0] != "add"],)
+            elif ev.env.get("groupFilters_") != news[wg] or ev.env.get("nameFilters_") != news[wn] or ("add", news[wg], 500) not in log or ("add", news[wn], 600) not in log:
+                why = "the group filter must be pushed on the group list and the name filter on the name list (%s)" % ([x for x in log if x[0] == "add"],)
+        except Unknown as u:
+            run.broke("C12.R2: addTestToRunBasedOnVerboseOutput cannot be folded: %s" % u)
+            continue
+        run.ob("R2", "TEST(g, n) form folded on %r: adds one strict group filter %r and one strict name filter %r" % (text, wg, wn), tv.site, not why, witness=why or "ok", what=why)
     # other valued options
     for opt, hname in (("-r", "setRepeatCount"), ("-s", "setShuffle"), ("-o", "setOutputType"), ("-k", "setPackageName")):
         then = branch_of.get(("prefix", opt))
